@@ -1,5 +1,7 @@
 import Driver.Codec
 import NirVerif.Model.Graph
+import NirVerif.Generated.LifExactFloat
+import NirVerif.Generated.CubaRefFloat
 /-
   Line-protocol driver: one JSON request per line on stdin, one JSON reply per line on
   stdout.  Imports Model / Spec / Generated only (no Mathlib), so it builds as a native exe.
@@ -67,6 +69,13 @@ def runOps (g : Node) : List String → List Json → Except String (List Json)
       | .error e => runOps g rest (errJson e :: acc)
     | _ => throw s!"unknown graph op {op}"
 
+def floatOfHex (s : String) : Except String Float := do
+  let b ← parseHex s
+  if b.length != 8 then throw "float needs 8 bytes"
+  pure (Float.ofBits (UInt64.ofNat (Py.leNat b)))
+
+def floatToHex (x : Float) : String := toHex (Py.natLE 8 x.toBits.toNat)
+
 def handle (j : Json) : Except String Json := do
   let op ← (← j.getObjVal? "op").getStr?
   match op with
@@ -101,6 +110,23 @@ def handle (j : Json) : Except String Json := do
     | .ok g =>
       let steps ← runOps g ops [nodeToJson g]
       pure (Json.mkObj [("steps", .arr steps.toArray)])
+  | "lif_kernel" =>
+    let a ← (← (← j.getObjVal? "args").getArr?).toList.mapM fun x => do floatOfHex (← x.getStr?)
+    match a with
+    | [tau, r, vl, vt, v, i, dt] =>
+      let adv := Generated.LifFloat.advance tau r vl vt v i dt
+      let nxt := Generated.LifFloat.nextSpikeTime tau r vl vt v i
+      let rst := Generated.LifFloat.applyReset tau r vl vt v
+      pure (Json.mkObj [("advance", .str (floatToHex adv)),
+        ("next", match nxt with | some t => .str (floatToHex t) | none => .null), ("reset", .str (floatToHex rst))])
+    | _ => throw "lif_kernel arity"
+  | "cuba_kernel" =>
+    let a ← (← (← j.getObjVal? "args").getArr?).toList.mapM fun x => do floatOfHex (← x.getStr?)
+    match a with
+    | [dt, ts, tm, r, vl, vt, w, I, v, x] =>
+      let (z, v', I') := Generated.CubaFloat.cubaForward dt ts tm r vl vt w I v x
+      pure (Json.mkObj [("z", .str (floatToHex z)), ("v", .str (floatToHex v')), ("I", .str (floatToHex I'))])
+    | _ => throw "cuba_kernel arity"
   | "to_dict" =>
     match ← buildRecipe (← j.getObjVal? "graph") with
     | .error e => pure (errJson e)
